@@ -291,10 +291,56 @@ pub fn run_data(max_n: usize, out: &mut impl Write) {
     }
 }
 
+fn parse_code(s: &str) -> Codes {
+    match s {
+        "U" => Codes::Unary, "G" => Codes::Gamma, "D" => Codes::Delta, "O" => Codes::Omega,
+        _ => {
+            let k: usize = s[1..].parse().unwrap();
+            if s.starts_with('Z') { Codes::Zeta(k) } else { Codes::Pi(k) }
+        }
+    }
+}
+
+/// Re-runs the implementation on the cases recorded in a replay / case file ("art" lines).
+pub fn run_replay(path: &str, out: &mut impl Write) {
+    let dir = tempfile::Builder::new().prefix("wgverif-art").tempdir().unwrap();
+    let text = std::fs::read_to_string(path).unwrap();
+    for line in text.lines() {
+        if !line.starts_with("art ") { continue; }
+        let kv: std::collections::HashMap<&str, &str> = line.split(' ').skip(1)
+            .filter_map(|t| t.split_once('=')).collect();
+        if kv.get("path") == Some(&"dataset") { continue; }
+        let codes: Vec<Codes> = kv["codes"].split(',').map(parse_code).collect();
+        let c = Conf {
+            w: kv["w"].parse().unwrap(),
+            mr: if kv["mr"] == "inf" { usize::MAX } else { kv["mr"].parse().unwrap() },
+            l: kv["L"].parse().unwrap(),
+            codes: [codes[0], codes[1], codes[2], codes[3], codes[4]],
+            le: kv["le"] == "1", zuck: kv["comp"] == "zuck", chunk: kv["chunk"].parse().unwrap(),
+        };
+        let g = parse_lists(kv["g"]);
+        let cuts = parse_ints(kv["cuts"]);
+        let p = kv["path"];
+        let how = if p == "comp_graph" { How::CompGraph }
+            else if p == "comp_lender" { How::CompLender }
+            else if let Some(o) = p.strip_prefix("par_order_") {
+                let order: Vec<usize> = o.split('-').filter(|t| !t.is_empty()).map(|t| t.parse().unwrap()).collect();
+                How::Par { cuts: cuts.clone(), threads: cuts.len() + 1, order: Some(order) }
+            } else { How::Par { cuts: cuts.clone(), threads: 4, order: None } };
+        let a = produce(dir.path(), &c, &g, &how);
+        let reload = if a.status == "ok" { reload_seq(dir.path(), c.le) } else { Err("skipped".into()) };
+        emit(out, kv["id"], p, &c, &g, &cuts, &a);
+        emit_reload(out, kv["id"], &g, reload);
+    }
+}
+
 /// The generated stream of artefacts for the codec properties.
 pub fn run(seed: u64, count: usize, max_n: usize, mode: &str, out: &mut impl Write) {
     if mode == "data" {
         return run_data(max_n, out);
+    }
+    if let Some(path) = mode.strip_prefix("replay:") {
+        return run_replay(path, out);
     }
     let mut rng = Rng::new(seed);
     let dir = tempfile::Builder::new().prefix("wgverif-art").tempdir().unwrap();
